@@ -3,7 +3,7 @@ from sa import scale, guards
 from sa.e1 import BodyCtx
 from sa.match import Zero, contains
 from sa.mir import AnchorError
-from sa.prov import render, subterms
+from sa.prov import render, subterms, alts
 
 LEVEL = "other"
 EXPLANATION = (
@@ -309,3 +309,91 @@ def run(ck, prog):
     _run_pre_progress(ck, prog)
     from sa import progress
     progress.run_rule(ck, prog, set(DIMENSION_FILES))
+
+
+# ------------------------------------------------------------------ qr_mut: the Householder norm takes the sign of the pivot a[k][k]
+_run_pre_qrsign = run
+
+
+def qr_householder_sign(ck, prog):
+    """The reflector's leading entry is 1 + a_kk / nrm: with nrm carrying the sign of a_kk this is 1 + |a_kk| / |nrm| >= 1;
+    with any other sign it cancels (to exactly 0 when the pivot dominates its sub-column, and the later division by it gives
+    NaN).  Rule: the divisor of the column scaling is negated under a test of the DIAGONAL entry get(k, k) against zero (or
+    takes its sign through copysign / signum of that entry)."""
+    from sa import guards
+    from sa.e1 import BodyCtx
+    rule, inst = "E2d-sign", "qr_mut: the Householder norm takes the sign of the diagonal entry a[k][k]"
+    try:
+        b = prog.one(r"^linalg::qr::QRDecomposableMatrix::qr_mut$")
+    except AnchorError as e:
+        ck.violation(rule, inst, "qr_mut", "", expected="anchor exists", found=f"anchor vanished: {e}")
+        return
+    cx = BodyCtx.of(b)
+    res = cx.res
+    is_zero = lambda t: t[0] == "call" and t[1].endswith("::zero") and not t[2]
+
+    def is_diag(t):
+        for a in alts(t):
+            if not (a[0] == "call" and a[1].split("::")[-1] == "get" and len(a[2]) == 3 and a[2][1] == a[2][2]):
+                return False
+        return True
+    # divisor local of the column scaling
+    divs = set()
+    for bb, t in b.calls():
+        f = t.get("f")
+        if f and f["path"].endswith("div_element_mut") and t["args"][-1]["k"] in ("move", "copy") and not t["args"][-1]["p"]["pr"]:
+            l = t["args"][-1]["p"]["l"]
+            # through a temp copy
+            ds = b.defs.get(l, [])
+            if len(ds) == 1 and ds[0].kind == "assign" and ds[0].data["r"]["k"] == "use" and ds[0].data["r"]["o"]["k"] in ("move", "copy") \
+                    and not ds[0].data["r"]["o"]["p"]["pr"]:
+                l = ds[0].data["r"]["o"]["p"]["l"]
+            divs.add(l)
+    if not divs:
+        ck.note(f"{inst}: no div_element_mut scaling in qr_mut: no instance")
+        return
+    found = []
+    for bb, t in b.calls():
+        f = t.get("f")
+        if not f:
+            continue
+        nm = f["path"].split("::")[-1]
+        if nm == "neg" and t["args"][0]["k"] in ("move", "copy"):
+            src = t["args"][0]["p"]["l"]
+            ds = b.defs.get(src, [])
+            if src not in divs and len(ds) == 1 and ds[0].kind == "assign" and ds[0].data["r"]["k"] == "use":
+                src = ds[0].data["r"]["o"]["p"]["l"]
+            dst = t["d"]["l"]
+            flows = dst in divs or any(d.kind == "assign" and d.data["r"]["k"] == "use" and d.data["r"]["o"]["k"] in ("move", "copy")
+                                       and d.data["r"]["o"]["p"]["l"] == dst for l in divs for d in b.defs.get(l, []))
+            if src in divs and flows:
+                # innermost comparison one of whose edges dominates the negation
+                ctl = [c for c in cx.cmps if b.dominates(c.true_bb, bb) != b.dominates(c.false_bb, bb)]
+                ctl = [c for c in ctl if not any(o is not c and b.dominates(c.bb, o.bb) for o in ctl)]
+                for c in ctl:
+                    sides = [s for s, o in ((c.lhs, c.rhs), (c.rhs, c.lhs)) if is_zero(o)]
+                    found.append((b.where(bb), "negated under a test of " + render(sides[0] if sides else c.lhs)[:60], bool(sides) and is_diag(sides[0]) and c.rel in ("<", ">", "<=", ">=")))
+                if not ctl:
+                    found.append((b.where(bb), "negated unconditionally", False))
+        elif nm in ("copysign", "signum"):
+            args = [res.operand(a) for a in t["args"]]
+            src = args[-1]
+            found.append((b.where(bb), f"{nm} of {render(src)[:60]}", is_diag(src)))
+    good = [x for x in found if x[2]]
+    if good:
+        ck.ok(rule, inst, b.path, good[0][0], good[0][1])
+    elif found:
+        ck.violation(rule, inst, b.path, found[0][0], expected="the sign is taken from the diagonal entry get(k, k)", found=found[0][1])
+    else:
+        ck.violation(rule, inst, b.path, f"{b.loc[0]}:{b.loc[1]}", expected="nrm = -nrm when get(k, k) < 0",
+                     found="the divisor of the column scaling never takes the sign of the pivot: 1 + a_kk/nrm cancels for a negative dominant pivot")
+
+
+def run(ck, prog):
+    _run_pre_qrsign(ck, prog)
+    qr_householder_sign(ck, prog)
+
+
+EXPLANATION += (" qr_mut: the Householder norm is negated under a test of the diagonal entry get(k, k) against zero (the reflector's "
+                "leading entry 1 + a_kk/nrm must not cancel).")
+TECHNIQUE += "; sign-source rule for the Householder norm"
